@@ -1,7 +1,8 @@
 ----------------------------- MODULE Trace_LBP -----------------------------
 (* Trace validation (code -> spec) for LBP.tla.  A trace is the history of   *)
-(* calls made on one real policy object; the first event is the Populate     *)
-(* call and also carries the policy configuration.  Every event carries what *)
+(* calls made on one real policy object (Learn events: hosts recorded in the  *)
+(* metadata before populate); the first event also carries the policy        *)
+(* configuration.  Every event carries what                                   *)
 (* the real object answered right after it: two consecutive query plans and  *)
 (* distance() of every known host.  An event is accepted iff the             *)
 (* corresponding specification action is enabled and the answers satisfy the *)
@@ -33,13 +34,14 @@ TraceNext ==
     /\ l' = l + 1
     /\ UNCHANGED tid
     /\ LET e == Tr[l] IN
-       /\ \/ e.e = "Populate" /\ Populate(ToSet(e.S), [h \in ToSet(e.S) |-> e.f[h]], ToSet(e.u))
+       /\ \/ e.e = "Learn"    /\ Learn(e.h, e.d, e.up)
+          \/ e.e = "Populate" /\ Populate /\ ToSet(e.order) = known /\ Len(e.order) = Cardinality(known)
           \/ e.e = "Up"       /\ Up(e.h)
           \/ e.e = "Down"     /\ Down(e.h)
           \/ e.e = "Add"      /\ Add(e.h, e.d)
           \/ e.e = "Remove"   /\ Remove(e.h)
           \/ e.e = "Relocate" /\ Relocate(e.h, e.d)
-       /\ Obs(e)
+       /\ populated' => Obs(e)
 
 TraceSpec == TraceInit /\ [][TraceNext]_tvars
 
